@@ -6,6 +6,38 @@ VERIF = os.path.dirname(os.path.dirname(os.path.abspath(__file__)))
 
 # property id -> (technique, level text, level note, design ref)
 CHECKS = {
+    "C02": ("forced-collection injection (hook in the allocator) + differential output + heap-reference checker",
+            "Runtime monitoring: every existing test program and generated allocation-heavy case files are run under forced "
+            "collection schedules (per allocation call path, every-n-th, seeded random, small heaps); the oracle is crash / "
+            "sanitizer / heap-checker report / output different from the un-injected run. Held = on the schedules and "
+            "programs explored, which the evidence counts (allocation paths seen and forced, collections, references checked).",
+            "Trusted: the hook that forces collections and the heap walker (opt/verif-gc.c); frame-pointer call-path hashing; "
+            "test programs' pass/fail summaries are deterministic. Schedules are sampled per allocation path, not exhaustive.",
+            "DESIGN.md section 3 C02"),
+    "C10": ("heap-walk invariant checker after every sweep + conservation of non-free bytes at quiescent points",
+            "Runtime monitoring: a guarded checker walks every heap after every sweep (exact tiling, sorted non-overlapping free "
+            "list, every traced/weak/saved-local reference is the start of a live object) over generated allocation/drop "
+            "histories and the test corpus; recycling is decided on non-free bytes at quiescent points (return to baseline, "
+            "bounded by the generator's reachable-bytes bound, no runaway heap growth).",
+            "Trusted: the checker and native/vmark.c read the heap structures correctly. 'Arbitrarily many allocations' is "
+            "restated as bounded runs; heap size is policy, so recycling is decided on bytes not on growth.",
+            "DESIGN.md section 3 C10"),
+    "C11": ("time-slice schedule injection at the scheduler entry + deadlock detector + program invariants",
+            "Runtime monitoring: correctly synchronised SRFI 18 programs (mutex counter, bounded buffers with unique ids, "
+            "ping-pong, join tree, timed waits, thread-local parameters, exceptions through join) run under hundreds of injected "
+            "slice sequences (1..Q instructions, plus enumerated first pre-emption offsets); oracle = in-program invariants, one "
+            "reference final state, the hook's deadlock detector, crash watch.",
+            "Trusted: the slice hook only shortens quanta the scheduler could produce anyway. Interleavings are sampled (the "
+            "evidence reports distinct interleaving hashes); wall-clock never decides, watchdog expiry is inconclusive.",
+            "DESIGN.md section 3 C11"),
+    "C16": ("reachability model for ephemerons under forced collections + strace-based descriptor lifecycle monitor",
+            "Runtime monitoring: ephemeron histories (held / dropped / chained keys, values containing their key) are compared "
+            "with a reachability model after 3 scrub+collect rounds, with and without forced-collection injection and the heap "
+            "checker; a descriptor-dropping loop under RLIMIT_NOFILE=64 is traced with strace (no EBADF close, no EMFILE "
+            "reaching the program, kept ports stay readable, descriptor count returns to base).",
+            "'Broken after the next full collection' is restated as 'within 3 scrub+collect rounds'. Trusted: strace output, "
+            "/proc/self/fd counting, the key-creation helper leaves no stale strong reference.",
+            "DESIGN.md section 3 C16"),
 }
 
 PENDING_REASON = "check not built yet in this revision of /verif (see DESIGN.md section 3 for the planned monitor)"
